@@ -5,15 +5,18 @@
     What is proved about the MODELS (exact arithmetic):
     - Jolt, 2 points: [C18_jolt_line_correct] -- all real inputs, every arm;
     - Jolt, 3 points, non-degenerate branch: [C18_jolt_triangle_correct] -- all real inputs, all 7 arms;
-      degenerate branch: [C18_jolt_triangle_degenerate_partial] (best of the three edges up to EPSILON);
+      degenerate branch: [C18_jolt_triangle_degenerate_partial] (best of the three edges up to EPSILON),
+      [C18_jolt_triangle_collinear] (exactly collinear points: within EPSILON of the global minimum);
     - Jolt, 4 points: [C18_jolt_tetra_structure] (all real inputs), [C18_jolt_tetra_inside] (origin
       strictly inside beyond the +-EPSILON band), [C18_jolt_tetra_outside_partial] (non-degenerate
       tetrahedron and faces, origin strictly outside: exact);
     - original, 1-4 points: [C18_orig_backup_valid] -- all real inputs: weights, order, subset;
       2 points: [C18_orig_segment_optimal] -- all real inputs: minimum-norm point;
       3 points: [C18_orig_face_optimal] -- ALL real inputs: minimum-norm point (Johnson's theorem);
-      4 points: [C18_orig_tetra_optimal_partial] -- non-degenerate tetrahedron with the origin not
-      strictly inside, or with all four cofactors > EPSILON: minimum-norm point;
+      4 points: [C18_orig_tetra_flat_optimal] -- every flat tetrahedron (V6 = 0);
+      [C18_orig_tetra_optimal_partial] -- non-degenerate tetrahedron with the origin not strictly
+      inside, or with all four cofactors > EPSILON: minimum-norm point; so the ONLY inputs of 1-4
+      points not covered are those of the refuted zone (origin strictly inside, a cofactor <= EPSILON);
     - both solvers, every configuration of 1-4 points with coordinates in {-1,0,1}
       (551 880 configurations, all degeneracies and region boundaries): exact optimum, subset,
       weights: [C18_jolt_lattice_exact], [C18_jolt_lattice4_exact], [C18_orig_lattice_exact],
@@ -23,15 +26,15 @@
     Missing (not proved for all real inputs): Jolt degenerate-triangle arm beyond "best of three
     edges up to EPSILON"; Jolt tetrahedron with the origin inside but within the EPSILON band of a
     plane test (false there: [C18_jolt_refuted]), degenerate tetrahedra (mixed orientation signs)
-    and degenerate faces; the original solver on degenerate (flat) tetrahedra, and with the origin
-    strictly inside a tetrahedron one of whose degree-6 cofactors is <= EPSILON -- false there:
-    [C18_orig_backup_refuted].
+    and degenerate faces (flat tetrahedra with non-degenerate faces: [C18_jolt_tetra_flat_partial]);
+    the original solver with the origin strictly inside a tetrahedron one of whose degree-6
+    cofactors is <= EPSILON -- false there: [C18_orig_backup_refuted].
     What judges the IMPLEMENTATION on every generated input: the certificates, whose soundness is
     [C18_kkt_cert_sound], [C18_cert_z_sound], [C18_cert_z_min_norm], [C18_bary_z_sound]. *)
 From Coq Require Import List NArith ZArith QArith Reals Lra.
 From D3 Require Import Base.Ops Base.Vec Base.RVec Spec.Convex Spec.ConvexHull
   Model.Simplex Model.SimplexOrig Model.SimplexRun Checker.Kkt Checker.KktZ
-  Proofs.SimplexLine Proofs.SimplexTriangle Proofs.SimplexTetra Proofs.SimplexOrig Proofs.SimplexOrigCand Proofs.SimplexOrigFace Proofs.SimplexOrigTetra Proofs.SimplexLattice
+  Proofs.SimplexLine Proofs.SimplexTriangle Proofs.SimplexTetra Proofs.SimplexCara Proofs.SimplexTetraFlat Proofs.SimplexCollinear Proofs.SimplexOrig Proofs.SimplexOrigCand Proofs.SimplexOrigFace Proofs.SimplexOrigTetra Proofs.SimplexLattice
   Proofs.SimplexLattice4 Proofs.SimplexRefuted.
 Import ListNotations.
 Local Open Scope R_scope.
@@ -132,6 +135,18 @@ Theorem C18_jolt_triangle_degenerate_partial : forall a b c : V3R,
 Proof. exact jolt_triangle_degenerate_partial. Qed.
 Print Assumptions C18_jolt_triangle_degenerate_partial.
 
+(** exactly collinear points (cross product zero; duplicates included): within EPSILON of the
+    minimum over the WHOLE hull, which is the union of the three segments *)
+Theorem C18_jolt_triangle_collinear : forall a b c : V3R,
+  cross (vsub b a) (vsub c a) = vzero ->
+  let r := @closest_point_triangle R ROps a b c in
+  tri_set_ok (snd r) /\
+  conv_hull (update_simplex_y [a; b; c] 3 (snd r)) (fst r) /\
+  conv_hull [a; b; c] (fst r) /\
+  forall x, conv_hull [a; b; c] x -> norm (fst r) <= norm x + eps.
+Proof. exact jolt_triangle_collinear. Qed.
+Print Assumptions C18_jolt_triangle_collinear.
+
 Example C18_jolt_triangle_degenerate_nonvacuous :
   dot (cross (vsub (V 2 0 0) (V 1 0 0)) (vsub (V 3 0 0) (V 1 0 0)))
       (cross (vsub (V 2 0 0) (V 1 0 0)) (vsub (V 3 0 0) (V 1 0 0))) < eps * eps.
@@ -172,6 +187,34 @@ Theorem C18_jolt_tetra_outside_partial : forall a b c d : V3R,
   conv_hull (update_simplex_y [a; b; c; d] 4 (snd r)) (fst r) /\ is_min_norm [a; b; c; d] (fst r).
 Proof. exact jolt_tetra_outside. Qed.
 Print Assumptions C18_jolt_tetra_outside_partial.
+
+(** flat tetrahedron (V6 = 0: the "mixed signs" arm) with non-degenerate faces: exact, because a
+    flat tetrahedron is the union of its faces (Caratheodory).  PARTIAL: degenerate faces excluded *)
+Theorem C18_jolt_tetra_flat_partial : forall a b c d : V3R,
+  let nsq (u v w : V3R) := dot (cross (vsub v u) (vsub w u)) (cross (vsub v u) (vsub w u)) in
+  V6 a b c d = 0 ->
+  eps * eps <= nsq a b c -> eps * eps <= nsq a c d -> eps * eps <= nsq a d b -> eps * eps <= nsq b d c ->
+  dot a a < maxf -> dot b b < maxf -> dot c c < maxf -> dot d d < maxf ->
+  let r := @closest_point_tetrahedron R ROps a b c d in
+  conv_hull (update_simplex_y [a; b; c; d] 4 (snd r)) (fst r) /\ is_min_norm [a; b; c; d] (fst r).
+Proof. exact jolt_tetra_flat. Qed.
+Print Assumptions C18_jolt_tetra_flat_partial.
+
+Example C18_jolt_tetra_flat_nonvacuous :
+  let a := V 1 0 0 in let b := V 0 1 0 in let c := V (-1) 0 0 in let d := V 0 (-1) 0 in
+  V6 a b c d = 0 /\
+  1 <= dot (cross (vsub b a) (vsub c a)) (cross (vsub b a) (vsub c a)) /\
+  1 <= dot (cross (vsub c a) (vsub d a)) (cross (vsub c a) (vsub d a)) /\
+  1 <= dot (cross (vsub d a) (vsub b a)) (cross (vsub d a) (vsub b a)) /\
+  1 <= dot (cross (vsub d b) (vsub c b)) (cross (vsub d b) (vsub c b)).
+Proof. cbv zeta. unfold V6. vunfold. cbn [vx vy vz]. repeat split; lra. Qed.
+
+(** Caratheodory for four affinely dependent points of space *)
+Theorem C18_flat_hull_faces : forall a b c d x : V3R,
+  V6 a b c d = 0 -> conv_hull [a; b; c; d] x ->
+  conv_hull [b; c; d] x \/ conv_hull [a; c; d] x \/ conv_hull [a; b; d] x \/ conv_hull [a; b; c] x.
+Proof. exact flat_hull_faces. Qed.
+Print Assumptions C18_flat_hull_faces.
 
 Example C18_jolt_tetra_outside_nonvacuous :
   let a := V 1 0 0 in let b := V 2 0 0 in let c := V 1 1 0 in let d := V 1 0 1 in
@@ -227,6 +270,13 @@ Theorem C18_orig_tetra_optimal_partial : forall y0 y1 y2 y3 : V3R,
   is_min_norm [y0; y1; y2; y3] (s_v (b_sol (@backup_procedure_tetrahedron R ROps [y0; y1; y2; y3]))).
 Proof. exact backup_tetra_optimal_partial. Qed.
 Print Assumptions C18_orig_tetra_optimal_partial.
+
+(** four points, flat tetrahedron (coplanar, collinear, coincident points): minimum-norm point, always *)
+Theorem C18_orig_tetra_flat_optimal : forall y0 y1 y2 y3 : V3R,
+  V6 y0 y1 y2 y3 = 0 ->
+  is_min_norm [y0; y1; y2; y3] (s_v (b_sol (@backup_procedure_tetrahedron R ROps [y0; y1; y2; y3]))).
+Proof. exact backup_tetra_flat_optimal. Qed.
+Print Assumptions C18_orig_tetra_flat_optimal.
 
 Example C18_orig_tetra_nonvacuous :
   let y0 := V 1 0 0 in let y1 := V 2 0 0 in let y2 := V 1 1 0 in let y3 := V 1 0 1 in
